@@ -63,7 +63,7 @@ struct RunResult {
 
 struct RunOpts {
   bool keep_log = false;
-  int trace_op = -1;  // record the call sites of this op
+  int trace_op = -1;  // record the call sites of this op (-2: of every op)
 };
 
 RunResult run_plan(const Plan &plan, const RunOpts &opts);
